@@ -1,31 +1,482 @@
-import CopVerif.Model.Vine
-/-! # C16 (work in progress) -/
+import CopVerif.Lemmas.VineWhole
+import CopVerif.Real.Inst
+import CopVerif.Gen.Bivariate
+/-!
+# C16 — A fitted vine is a regular vine of the requested type and depth
+
+Property theorems only.  They are about the hand-written model `CopVerif.Model.Vine` of
+`copulas/multivariate/{tree,vine}.py` (tied to the real code on every run by
+`tools/props/c16.py`): `trainVine vt d t cs` is `VineCopula.train_vine` on `d` columns with
+`truncated = t`, where `cs` supplies, per tree, the tau matrix `Tree.fit` received and the
+tie-breaking made where Python's is unspecified.  `trainVine … = .ok r` means: the choice sequence
+is one the code could have made (every step accepted) and no exception was raised — so every
+theorem with that hypothesis holds for EVERY accepted run.
+
+`α` is any preorder with the numeric signature (`ℝ` in particular); nothing about the order of the
+tau values is assumed beyond the hypotheses `ChoicesOK` (see there), which hold for every matrix
+of real numbers in `(-10, ∞)`.
+-/
+set_option linter.unusedSimpArgs false
+set_option linter.unusedSectionVars false
+set_option linter.unusedVariables false
 namespace CopVerif.Props.C16
 open CopVerif CopVerif.Model.Vine
 
-section
-variable {α : Type} [LT α] [DecidableLT α] [Neg α] [NumFns α]
+/-- the trees of a run (the model also returns every edge's `.tau`). -/
+abbrev treesOf {α : Type} (r : List (Tree × List α)) : List Tree := r.map Prod.fst
 
-theorem trainRest_length (vt : VType) (d : Nat) :
-    ∀ (fuel k : Nat) (prev : Tree) (cs : List (Choice α)) (r : List (Tree × List α)),
+section
+variable {α : Type} [Preorder α] [DecidableLT α] [Neg α] [NumFns α]
+
+/-! ## depth -/
+
+/-- `len(self.trees) = max(1, min(d - 1, truncated))` — for every vine type, every data. -/
+theorem tree_count {vt : VType} {d t : Nat} {cs : List (Choice α)} {r : List (Tree × List α)}
+    (h : trainVine vt d t cs = .ok r) : r.length = max 1 (min (d - 1) t) := by
+  have hrest : ∀ (fuel k : Nat) (prev : Tree) (cs : List (Choice α)) (r : List (Tree × List α)),
       trainRest vt d fuel k prev cs = .ok r → r.length = fuel := by
-  intro fuel
-  induction fuel with
-  | zero => intro k prev cs r h; simp [trainRest] at h; subst h; rfl
-  | succ n ih =>
-    intro k prev cs r h
-    cases cs with
-    | nil => simp [trainRest] at h
-    | cons c cs =>
-      simp only [trainRest] at h
-      cases hb : buildKth vt (k + 1) (d - k) prev c with
-      | error e => simp [hb, bind, Except.bind] at h
-      | ok b =>
-        cases hr : trainRest vt d n (k + 1) b.1 cs with
-        | error e => simp [hb, hr, bind, Except.bind] at h
-        | ok rest =>
-          simp [hb, hr, bind, Except.bind, pure, Except.pure] at h
-          subst h
-          simp [ih _ _ _ _ hr]
+    intro fuel
+    induction fuel with
+    | zero => intro k prev cs r h; simp [trainRest] at h; subst h; rfl
+    | succ n ih =>
+      intro k prev cs r h
+      cases cs with
+      | nil => simp [trainRest] at h
+      | cons c cs =>
+        simp only [trainRest] at h
+        rw [bind_eq_ok] at h
+        obtain ⟨b, _, h⟩ := h
+        rw [bind_eq_ok] at h
+        obtain ⟨rest, hr, h⟩ := h
+        simp only [pure, Except.pure, Except.ok.injEq] at h
+        subst h
+        simp [ih _ _ _ _ hr]
+  cases cs with
+  | nil => simp [trainVine] at h
+  | cons c cs =>
+    simp only [trainVine] at h
+    rw [bind_eq_ok] at h
+    obtain ⟨b, _, h⟩ := h
+    rw [bind_eq_ok] at h
+    obtain ⟨rest, hr, h⟩ := h
+    simp only [pure, Except.pure, Except.ok.injEq] at h
+    subst h
+    simp [hrest _ _ _ _ _ hr]; omega
+
+/-- for `d ≥ 2` columns and truncation `t ≥ 1` that is `min (d-1) t ≥ 1` trees. -/
+theorem tree_count_min {vt : VType} {d t : Nat} {cs : List (Choice α)} {r : List (Tree × List α)}
+    (hd : 2 ≤ d) (ht : 1 ≤ t) (h : trainVine vt d t cs = .ok r) :
+    r.length = min (d - 1) t ∧ 1 ≤ r.length := by
+  have := tree_count h; omega
+
+/-! ## the vine structure, all three types -/
+
+/-- **Main structure theorem.**  For every vine type, `d ≥ 2`, truncation, tau data (`ChoicesOK`)
+    and every accepted run: tree `k` (0-based) is a spanning tree by growth order on its `d - k`
+    nodes; every first-tree edge joins two different variables `< d` with empty conditioning set;
+    every later edge has two different parents among the edges of the previous tree that share a
+    node (**proximity**), its conditioned pair `L < R` is the symmetric difference and its
+    conditioning set (`k` elements) the intersection of the parents' variable sets. -/
+theorem vine_structure {vt : VType} {d t : Nat} {cs : List (Choice α)} {r : List (Tree × List α)}
+    (hd : 2 ≤ d) (hcs : ChoicesOK vt d 0 cs) (h : trainVine vt d t cs = .ok r) :
+    TreesSpec d 0 none (treesOf r) :=
+  (trainVine_spec hd hcs h).2.1
+
+/-- tree `k` has `d - k - 1` edges (on `d - k` nodes). -/
+theorem edge_count {vt : VType} {d t : Nat} {cs : List (Choice α)} {r : List (Tree × List α)}
+    (hd : 2 ≤ d) (hcs : ChoicesOK vt d 0 cs) (h : trainVine vt d t cs = .ok r)
+    (k : Nat) (hk : k < (treesOf r).length) : ((treesOf r)[k]).length + 1 = d - k :=
+  ((vine_structure hd hcs h).levelInv k hk).2
+
+/-- every tree is a spanning tree by a growth order (its own edge order), hence connected: every
+    node is reachable from the root along the edges. -/
+theorem spanning {vt : VType} {d t : Nat} {cs : List (Choice α)} {r : List (Tree × List α)}
+    (hd : 2 ≤ d) (hcs : ChoicesOK vt d 0 cs) (h : trainVine vt d t cs = .ok r)
+    (k : Nat) (hk : k < (treesOf r).length) :
+    let pairs := ((treesOf r)[k]).map (Edge.ends (k == 0))
+    SpanningTree (d - k) pairs ∧ ∃ root, root < d - k ∧ ∀ v, v < d - k → Reach pairs root v := by
+  obtain ⟨hinv, hlen⟩ := (vine_structure hd hcs h).levelInv k hk
+  have hs := hinv.span
+  have hf : (prevOf (treesOf r) k).isNone = (k == 0) := hinv.first_iff
+  rw [hf, hlen] at hs
+  exact ⟨hs, hs.connected⟩
+
 end
+
+/-- what `TreesSpec` says about tree `k + 1` of a vine structure. -/
+theorem kthEdgeAt_of_spec {d : Nat} {trees : List Tree} (hspec : TreesSpec d 0 none trees)
+    (k : Nat) (hk : k + 1 < trees.length) (e : Edge) (he : e ∈ trees[k + 1]) :
+    ∃ i j, KthEdgeAt (k + 1) (trees[k]'(by omega)) e i j := by
+  cases trees with
+  | nil => simp at hk
+  | cons t0 rest =>
+    obtain ⟨_, hrest⟩ := hspec
+    have hk' : k < rest.length := by simpa using hk
+    obtain ⟨_, hedges⟩ := TreesSpec.spanning_aux rest 0 t0 hrest k hk'
+    simp only [List.getElem_cons_succ] at he
+    obtain ⟨i, j, hat⟩ := hedges e he
+    have hprev : (t0 :: rest).getD k default = (t0 :: rest)[k]'(by simp; omega) :=
+      getD_eq_getElem' _ (by simp; omega)
+    rw [hprev, show 0 + 1 + k = k + 1 by omega] at hat
+    exact ⟨i, j, hat⟩
+
+/-- **proximity**: in a vine structure — by `vine_structure`: in the result of every accepted run,
+    of all three types — every edge of tree `k + 1` joins two different edges of tree `k` that
+    share a node.  (Center: all edges share the centre; direct: consecutive edges of a path;
+    regular: through `_check_constraint`, see `checkConstraint_iff_proximity`.) -/
+theorem proximity {d : Nat} {trees : List Tree} (hspec : TreesSpec d 0 none trees)
+    (k : Nat) (hk : k + 1 < trees.length) (e : Edge) (he : e ∈ trees[k + 1]) :
+    ∃ i j, e.parents = some (i, j) ∧ i ≠ j ∧ i < (trees[k]'(by omega)).length ∧
+      j < (trees[k]'(by omega)).length ∧
+      ShareNode (k == 0) ((trees[k]'(by omega)).getD i default)
+        ((trees[k]'(by omega)).getD j default) := by
+  obtain ⟨i, j, hat⟩ := kthEdgeAt_of_spec hspec k hk e he
+  refine ⟨i, j, hat.parents, hat.ne, hat.hi, hat.hj, ?_⟩
+  have := hat.proximity
+  have hb : ((k + 1 == 1) : Bool) = (k == 0) := by rw [Bool.eq_iff_iff]; simp
+  rw [hb] at this
+  exact this
+
+/-- conditioned and conditioning sets of every edge of tree `k + 1` of a vine structure: two
+    different variables `L < R` = the symmetric difference, `D` (`k + 1` elements) = the
+    intersection of the parents' variable sets. -/
+theorem edge_sets {d : Nat} {trees : List Tree} (hspec : TreesSpec d 0 none trees)
+    (k : Nat) (hk : k + 1 < trees.length) (e : Edge) (he : e ∈ trees[k + 1]) :
+    ∃ i j, e.parents = some (i, j) ∧ e.L < e.R ∧ e.D.length = k + 1 ∧
+      symDiff ((trees[k]'(by omega)).getD i default).vars
+        ((trees[k]'(by omega)).getD j default).vars = [e.L, e.R] ∧
+      e.D = inter ((trees[k]'(by omega)).getD i default).vars
+        ((trees[k]'(by omega)).getD j default).vars := by
+  obtain ⟨i, j, hat⟩ := kthEdgeAt_of_spec hspec k hk e he
+  refine ⟨i, j, hat.parents, hat.lt, hat.card, ?_, ?_⟩
+  · exact sorted_pair_of_mem (sorted_symDiff _ _) hat.lt (by
+      intro a; rw [mem_symDiff]; exact (hat.conditioned a).symm)
+  · exact sorted_ext hat.sortedD (sorted_inter _ (Edge.sorted_vars _)) (by
+      intro a; rw [mem_inter]; exact hat.conditioning a)
+
+/-! ## `_identify_eds_ing`, `_check_constraint` -/
+
+/-- **`identify_spec`** (set form).  If two edges have `m + 1` variables each, different variable
+    sets, and both contain the `m` variables `C` of a common node, then `_identify_eds_ing`
+    does not raise, `|A △ B| = 2` (returned as `l < r`), and the conditioning set `A ∩ B` is `C`
+    (`m` elements). -/
+theorem identify_spec {p q : Edge} {C : List Nat} {m : Nat}
+    (hp : p.vars.length = m + 1) (hq : q.vars.length = m + 1) (hC : C.Nodup)
+    (hCl : C.length = m) (hCp : C ⊆ p.vars) (hCq : C ⊆ q.vars) (hne : p.vars ≠ q.vars) :
+    ∃ l r, identify p q = .ok (l, r, inter p.vars q.vars) ∧ l < r ∧
+      symDiff p.vars q.vars = [l, r] ∧
+      (inter p.vars q.vars).length = m ∧ ∀ a, a ∈ inter p.vars q.vars ↔ a ∈ C :=
+  identify_spec_sets hp hq hC hCl hCp hCq hne
+
+/-- **`identify_spec` in a vine**: in ANY vine structure (model output or a checked real vine), two
+    different edges of tree `k` that share a node are valid parents: `_identify_eds_ing` succeeds
+    with `|A △ B| = 2` and `|A ∩ B| = k + 1`. -/
+theorem identify_spec_vine {d : Nat} {trees : List Tree} (h : TreesSpec d 0 none trees)
+    (k : Nat) (hk : k < trees.length) {i j : Nat} (hi : i < trees[k].length)
+    (hj : j < trees[k].length) (hij : i ≠ j)
+    (hs : ShareNode (k == 0) (trees[k].getD i default) (trees[k].getD j default)) :
+    ∃ l r, identify (trees[k].getD i default) (trees[k].getD j default) =
+        .ok (l, r, inter (trees[k].getD i default).vars (trees[k].getD j default).vars) ∧ l < r ∧
+      symDiff (trees[k].getD i default).vars (trees[k].getD j default).vars = [l, r] ∧
+      (inter (trees[k].getD i default).vars (trees[k].getD j default).vars).length = k + 1 := by
+  obtain ⟨hinv, _⟩ := h.levelInv k hk
+  have hf : (prevOf trees k).isNone = (k == 0) := hinv.first_iff
+  exact hinv.identify_of_share hi hj hij (hf ▸ hs)
+
+/-- **`_check_constraint` ⇔ proximity on regular-vine inputs**: for two different edges of tree
+    `k` of any vine structure, `len(full_node) == level + 1` (with `level = k + 2`, the tree being
+    built) holds exactly when the two edges share a node. -/
+theorem checkConstraint_iff_proximity {d : Nat} {trees : List Tree}
+    (h : TreesSpec d 0 none trees) (k : Nat) (hk : k < trees.length) {i j : Nat}
+    (hi : i < trees[k].length) (hj : j < trees[k].length) (hij : i ≠ j) :
+    checkConstraint (k + 2) (trees[k].getD i default) (trees[k].getD j default) = true ↔
+      ShareNode (k == 0) (trees[k].getD i default) (trees[k].getD j default) := by
+  obtain ⟨hinv, _⟩ := h.levelInv k hk
+  have hf : (prevOf trees k).isNone = (k == 0) := hinv.first_iff
+  rw [← hf]
+  exact hinv.checkConstraint_iff_share hi hj hij
+
+/-- different edges of a tree of a vine structure have different variable sets. -/
+theorem vars_injective {d : Nat} {trees : List Tree} (h : TreesSpec d 0 none trees)
+    (k : Nat) (hk : k < trees.length) {i j : Nat} (hi : i < trees[k].length)
+    (hj : j < trees[k].length) (hij : i ≠ j) :
+    (trees[k].getD i default).vars ≠ (trees[k].getD j default).vars :=
+  (h.levelInv k hk).1.vars_injective hi hj hij
+
+section
+variable {α : Type} [Preorder α] [DecidableLT α] [Neg α] [NumFns α]
+
+/-! ## type clauses -/
+
+/-- a "center" vine has a star in every tree (around variable 0 / around edge 0). -/
+theorem center_is_star {d t : Nat} {cs : List (Choice α)} {r : List (Tree × List α)}
+    (hd : 2 ≤ d) (hcs : ChoicesOK .center d 0 cs) (h : trainVine .center d t cs = .ok r) :
+    ∀ ps ∈ treePairs (treesOf r), IsStar ps := by
+  obtain ⟨_, _, t0, rest, hr, h0, hrest⟩ := trainVine_spec hd hcs h
+  rw [show treesOf r = t0 :: rest from hr, treePairs_cons]
+  intro ps hps
+  rcases List.mem_cons.mp hps with rfl | hps
+  · exact h0
+  · obtain ⟨t', ht', rfl⟩ := List.mem_map.mp hps
+    exact hrest t' ht'
+
+/-- a "direct" vine has a path in every tree (its edges in order walk along distinct nodes). -/
+theorem direct_is_path {d t : Nat} {cs : List (Choice α)} {r : List (Tree × List α)}
+    (hd : 2 ≤ d) (hcs : ChoicesOK .direct d 0 cs) (h : trainVine .direct d t cs = .ok r) :
+    ∀ ps ∈ treePairs (treesOf r), IsPath ps := by
+  obtain ⟨_, _, t0, rest, hr, h0, hrest⟩ := trainVine_spec hd hcs h
+  rw [show treesOf r = t0 :: rest from hr, treePairs_cons]
+  intro ps hps
+  rcases List.mem_cons.mp hps with rfl | hps
+  · exact h0.1
+  · obtain ⟨t', ht', rfl⟩ := List.mem_map.mp hps
+    exact (hrest t' ht').1
+
+/-! ## no pair conditioned twice -/
+
+/-- **`pairs_once`, center vines.** -/
+theorem pairs_once_center {d t : Nat} {cs : List (Choice α)} {r : List (Tree × List α)}
+    (hd : 2 ≤ d) (hcs : ChoicesOK .center d 0 cs) (h : trainVine .center d t cs = .ok r) :
+    PairsOnce (treesOf r) := by
+  obtain ⟨_, hspec, t0, rest, hr, h0, hrest⟩ := trainVine_spec hd hcs h
+  rw [show treesOf r = t0 :: rest from hr]
+  rw [hr] at hspec
+  exact pairsOnce_of_stars hspec h0 hrest
+
+/-- **`pairs_once`, direct vines.** -/
+theorem pairs_once_direct {d t : Nat} {cs : List (Choice α)} {r : List (Tree × List α)}
+    (hd : 2 ≤ d) (hcs : ChoicesOK .direct d 0 cs) (h : trainVine .direct d t cs = .ok r) :
+    PairsOnce (treesOf r) := by
+  obtain ⟨_, hspec, t0, rest, hr, h0, hrest⟩ := trainVine_spec hd hcs h
+  rw [show treesOf r = t0 :: rest from hr]
+  rw [hr] at hspec
+  exact pairsOnce_of_paths hd hspec h0.2 (fun t' ht' => (hrest t' ht').2)
+
+/-- **C16, structural part, for center vines**: every accepted run on `d ≥ 2` columns yields a
+    regular vine of depth `max 1 (min (d-1) t)` with a star in every tree. -/
+theorem center_vine_is_regular_vine {d t : Nat} {cs : List (Choice α)} {r : List (Tree × List α)}
+    (hd : 2 ≤ d) (hcs : ChoicesOK .center d 0 cs) (h : trainVine .center d t cs = .ok r) :
+    IsRegularVine d t (treesOf r) ∧ TypeSpec .center (treesOf r) :=
+  ⟨⟨hd, by simpa using tree_count h, vine_structure hd hcs h, pairs_once_center hd hcs h⟩,
+    center_is_star hd hcs h⟩
+
+/-- **C16, structural part, for direct vines**. -/
+theorem direct_vine_is_regular_vine {d t : Nat} {cs : List (Choice α)} {r : List (Tree × List α)}
+    (hd : 2 ≤ d) (hcs : ChoicesOK .direct d 0 cs) (h : trainVine .direct d t cs = .ok r) :
+    IsRegularVine d t (treesOf r) ∧ TypeSpec .direct (treesOf r) :=
+  ⟨⟨hd, by simpa using tree_count h, vine_structure hd hcs h, pairs_once_direct hd hcs h⟩,
+    direct_is_path hd hcs h⟩
+
+/-- **C16, structural part, for regular vines — all but `pairs_once`** (no hypothesis on the tau
+    data at all).  Missing for the full statement: that no pair of variables is conditioned twice
+    in an ARBITRARY regular vine (a classical theorem on regular vines, not formalised here); it
+    is established per fitted vine by the sound checker `isRegularVine` in the correspondence run. -/
+theorem regular_vine_structure_partial {d t : Nat} {cs : List (Choice α)}
+    {r : List (Tree × List α)} (hd : 2 ≤ d) (h : trainVine .regular d t cs = .ok r) :
+    (treesOf r).length = max 1 (min (d - 1) t) ∧ TreesSpec d 0 none (treesOf r) := by
+  have hcs : ChoicesOK (α := α) .regular d 0 cs := by
+    have : ∀ (cs : List (Choice α)) k, ChoicesOK .regular d k cs := by
+      intro cs
+      induction cs with
+      | nil => intro k; trivial
+      | cons c cs ih => intro k; exact ⟨trivial, ih _⟩
+    exact this cs 0
+  exact ⟨by simpa using tree_count h, vine_structure hd hcs h⟩
+
+/-! ## regular vines: greedy cut, termination -/
+
+/-- **`prim_greedy_cut`** (first tree).  In every accepted run of Prim's loop each chosen pair
+    `(x, k)` joins the visited set to a new variable and no pair across the current cut has a
+    strictly smaller key `-|tau|`, i.e. a strictly larger `|tau|`. -/
+theorem prim_greedy_cut {n : Nat} {tau : Mat α} {choices : List (Nat × Nat)} {t : Tree}
+    {ts : List α} (hn : 1 ≤ n) (h : primFirst n tau choices = .ok (t, ts)) :
+    PrimTrace n tau [0] choices :=
+  (primFirst_spec hn h).2.2.2
+
+/-- the same for the constrained loop of the k-th tree: among the pairs that satisfy
+    `_check_constraint` (equivalently: proximity) across the cut, the chosen one has maximal
+    `|tau|`. -/
+theorem prim_greedy_cut_kth {k n : Nat} {pp : Option Tree} {prev : Tree} {tau : Mat α}
+    {choices : List (Nat × Nat)} {t : Tree} {ts : List α} (hn : 1 ≤ n)
+    (hinv : LevelInv k pp prev) (hlen : prev.length = n)
+    (h : primKth (k + 2) n prev tau choices = .ok (t, ts)) :
+    KthTrace (k + 2) n prev tau [0] choices :=
+  (primKth_spec hn hinv hlen h).2.2.2
+
+/-- **`prim_is_max_spanning_tree`, partial.**  Proved: the first tree of a regular vine is a
+    spanning tree each of whose edges was, when chosen, of maximal `|tau|` across the cut between
+    visited and unvisited variables (Prim's invariant).  Missing: the exchange argument that
+    concludes maximality of the total weight among all spanning trees; the failing-input search
+    compares the real first tree's weight multiset with Kruskal's. -/
+theorem prim_is_max_spanning_tree_partial {n : Nat} {tau : Mat α} {choices : List (Nat × Nat)}
+    {t : Tree} {ts : List α} (hn : 1 ≤ n) (h : primFirst n tau choices = .ok (t, ts)) :
+    SpanningTree n (t.map (Edge.ends true)) ∧ PrimTrace n tau [0] choices :=
+  ⟨(primFirst_spec hn h).2.2.1, (primFirst_spec hn h).2.2.2⟩
+
+/-- **`regular_kth_terminates`** (one tree).  Over a tree `prev` of a vine structure (so: connected
+    by growth order), the loop of `RegularTree._build_kth_tree` never reaches the `adj_set == ∅`
+    branch — which would never terminate, `list(unvisited)[0]` being the already visited node 0 —
+    and `get_child_edge` never raises: the model fails only by refusing a choice sequence. -/
+theorem regular_kth_terminates {k n : Nat} {pp : Option Tree} {prev : Tree} {tau : Mat α}
+    (hinv : LevelInv k pp prev) (hlen : prev.length = n) (hn : 1 ≤ n)
+    (choices : List (Nat × Nat)) (e : Fail)
+    (h : primKth (k + 2) n prev tau choices = .error e) : ∃ w, e = .rejected w :=
+  primKthGo_no_failure hinv hlen choices [0] (by simp) (by simp) (by simp; omega) e h
+
+/-- **`regular_kth_terminates`** (whole vine): for `d ≥ 2`, whatever the tau matrices and whatever
+    choices are tried, the model of `train_vine("regular")` never diverges and never raises
+    `ValueError`/`IndexError`. -/
+theorem regular_never_fails {d t : Nat} {cs : List (Choice α)} {e : Fail} (hd : 2 ≤ d)
+    (h : trainVine .regular d t cs = .error e) :
+    e ≠ .diverges ∧ e ≠ .valueError ∧ e ≠ .indexError := by
+  have := trainVine_regular_no_failure hd h
+  cases e <;> simp_all [Fail.isRefusal]
+
+end
+
+/-! ## the checker -/
+
+/-- **`isRegularVine_sound`**: the decidable checker evaluated by the driver on every real
+    fitted vine implies the C16 structural predicate (depth, spanning trees, well-formed edges,
+    proximity, conditioned/conditioning sets, pairs once). -/
+theorem isRegularVine_sound {d t : Nat} {trees : List Tree}
+    (h : isRegularVine d t trees = true) : IsRegularVine d t trees :=
+  isRegularVine_sound' h
+
+/-- the checker of the type clause (star / path in every tree) is sound. -/
+theorem typeOk_sound {vt : VType} {trees : List Tree} (h : typeOk vt trees = true) :
+    TypeSpec vt trees :=
+  typeOk_sound' h
+
+/-- **`pairs_once` for arbitrary regular vines, partial**: not proved for every accepted run of
+    the regular builder; what is proved is that it holds for every vine the checker accepts (and
+    the checker is run on every real fitted vine). -/
+theorem pairs_once_regular_partial {d t : Nat} {trees : List Tree}
+    (h : isRegularVine d t trees = true) : PairsOnce trees :=
+  (isRegularVine_sound' h).pairs_once
+
+/-- C-vine and D-vine structures have `pairs_once` — also for checked real vines. -/
+theorem pairs_once_of_stars {d : Nat} {t0 : Tree} {rest : List Tree}
+    (hspec : TreesSpec d 0 none (t0 :: rest)) (h0 : IsStar (t0.map (Edge.ends true)))
+    (hrest : ∀ t ∈ rest, IsStar (t.map (Edge.ends false))) : PairsOnce (t0 :: rest) :=
+  pairsOnce_of_stars hspec h0 hrest
+
+/-! ## the hypotheses hold for real tau matrices; admissible thetas -/
+
+/-- over `ℝ` the center-vine hypothesis holds for EVERY matrix: the keys are `|tau| ≥ 0 > -10`. -/
+theorem colOK_real (n : Nat) (tau : Mat ℝ) : ColOK n tau := by
+  intro j _ _
+  simp only [m10, sortKey, Bool.false_eq_true, ite_false, isNaN_real, abs_real, ofNat_real]
+  have := abs_nonneg (tau.get j 0)
+  norm_num
+  linarith
+
+/-- hence for center vines over `ℝ` no hypothesis on the data is needed. -/
+theorem choicesOK_center_real (d : Nat) (cs : List (Choice ℝ)) (k : Nat) :
+    ChoicesOK .center d k cs := by
+  induction cs generalizing k with
+  | nil => trivial
+  | cons c cs ih => exact ⟨colOK_real _ _, ih _⟩
+
+/-- over `ℝ`, the greedy-cut property reads: every pair across the cut has `|tau| ≤` the chosen
+    pair's `|tau|`. -/
+theorem prim_greedy_cut_real {n : Nat} {tau : Mat ℝ} {vis : List Nat} {q : Nat × Nat}
+    {qs : List (Nat × Nat)} (h : PrimTrace n tau vis (q :: qs)) :
+    q ∈ candsFirst n vis ∧ ∀ c ∈ candsFirst n vis, |tau.get c.1 c.2| ≤ |tau.get q.1 q.2| := by
+  obtain ⟨h1, h2, _⟩ := h
+  refine ⟨h1, fun c hc => ?_⟩
+  have := h2 c hc
+  simp only [primKey, abs_real, not_lt, neg_le_neg_iff] at this
+  exact this
+
+/-- **admissible theta** = `check_theta` of the GENERATED class tables, read over `ℝ`:
+    Clayton `θ > 0`, Frank `θ ≠ 0`, Gumbel `θ ≥ 1`. -/
+theorem theta_admissible_iff (θ : ℝ) :
+    (checkTheta (Gen.Clayton.thetaLower (α := ℝ)) Gen.Clayton.thetaUpper
+        Gen.Clayton.invalidThetas θ = true ↔ 0 < θ) ∧
+    (checkTheta (Gen.Frank.thetaLower (α := ℝ)) Gen.Frank.thetaUpper
+        Gen.Frank.invalidThetas θ = true ↔ θ ≠ 0) ∧
+    (checkTheta (Gen.Gumbel.thetaLower (α := ℝ)) Gen.Gumbel.thetaUpper
+        Gen.Gumbel.invalidThetas θ = true ↔ 1 ≤ θ) := by
+  refine ⟨?_, ?_, ?_⟩
+  · simp [checkTheta, Gen.Clayton.thetaLower, Gen.Clayton.thetaUpper, Gen.Clayton.invalidThetas,
+      Bound.leVal, Bound.valLe]
+    constructor
+    · rintro ⟨h1, h2⟩; exact lt_of_le_of_ne h1 (Ne.symm h2)
+    · intro h; exact ⟨h.le, h.ne'⟩
+  · simp [checkTheta, Gen.Frank.thetaLower, Gen.Frank.thetaUpper, Gen.Frank.invalidThetas,
+      Bound.leVal, Bound.valLe]
+  · simp [checkTheta, Gen.Gumbel.thetaLower, Gen.Gumbel.thetaUpper, Gen.Gumbel.invalidThetas,
+      Bound.leVal, Bound.valLe]
+
+/-! ## non-vacuity: the hypotheses are satisfiable together with an accepted run -/
+
+section Examples
+
+/-- a computable numeric signature for evaluating the model on integer "taus" (scaled by 10). -/
+local instance instNumFnsInt : NumFns Int where
+  exp := id
+  log := id
+  pow := fun a _ => a
+  sqrt := id
+  abs := fun a => (Int.natAbs a : Int)
+  ofNat := Int.ofNat
+  ofSci := fun m _ => Int.ofNat m
+  beq := fun a b => a == b
+  isPosInf := fun _ => false
+  isNaN := fun _ => false
+
+private def tauI : Mat Int := [[10, 5, -2, 1], [5, 10, 3, 4], [-2, 3, 10, 6], [1, 4, 6, 10]]
+private def csCenter : List (Choice Int) :=
+  [⟨tauI, [1, 2, 3]⟩, ⟨[[0, 4, 0], [7, 0, 2], [5, 3, 0]], [1, 2]⟩, ⟨[[0, 1], [1, 0]], [1]⟩]
+private def csDirect : List (Choice Int) :=
+  [⟨tauI, [1, 2]⟩, ⟨[[0, 4, 0], [7, 0, 2], [5, 3, 0]], []⟩, ⟨[[0, 1], [1, 0]], []⟩]
+private def csRegular : List (Choice Int) :=
+  [⟨tauI, [0, 1, 1, 3, 3, 2]⟩, ⟨[[0, 4, 0], [7, 0, 2], [0, 3, 0]], [0, 1, 1, 2]⟩,
+    ⟨[[0, 1], [1, 0]], [0, 1]⟩]
+
+/-- accepted runs exist for the three types (4 columns, full depth). -/
+example : ∃ r, trainVine .center 4 3 csCenter = .ok r := ⟨_, rfl⟩
+example : ∃ r, trainVine .direct 4 3 csDirect = .ok r := ⟨_, rfl⟩
+example : ∃ r, trainVine .regular 4 3 csRegular = .ok r := ⟨_, rfl⟩
+
+private theorem colOK_tauI : ColOK 4 tauI := by
+  intro j h1 h2
+  obtain rfl | rfl | rfl : j = 1 ∨ j = 2 ∨ j = 3 := by omega
+  all_goals decide
+
+/-- `ChoicesOK` holds for these runs (center: every tree's column-0 keys; direct: first tree). -/
+example : ChoicesOK .center 4 0 csCenter := by
+  refine ⟨colOK_tauI, ?_, ?_, trivial⟩
+  · intro j h1 h2
+    obtain rfl | rfl : j = 1 ∨ j = 2 := by omega
+    all_goals decide
+  · intro j h1 h2
+    obtain rfl : j = 1 := by omega
+    decide
+
+example : ChoicesOK .direct 4 0 csDirect := by
+  refine ⟨fun _ => ⟨?_, colOK_tauI, ?_⟩, fun h => absurd h (by decide), fun h => absurd h (by decide),
+    trivial⟩
+  · intro i hi
+    obtain rfl | rfl | rfl | rfl : i = 0 ∨ i = 1 ∨ i = 2 ∨ i = 3 := by omega
+    all_goals rfl
+  · intro i hi c hc
+    obtain rfl | rfl | rfl | rfl : i = 0 ∨ i = 1 ∨ i = 2 ∨ i = 3 := by omega
+    all_goals (obtain rfl | rfl | rfl | rfl : c = 0 ∨ c = 1 ∨ c = 2 ∨ c = 3 := by omega)
+    all_goals decide
+
+/-- the hypotheses of `identify_spec`: edges `(0,3|1)` and `(1,2|3)` sharing the node `{1,3}`. -/
+example : ∃ l r, identify ⟨0, 3, [1], none⟩ ⟨1, 2, [3], none⟩ = .ok (l, r, [1, 3]) ∧ l < r :=
+  ⟨0, 2, rfl, by decide⟩
+
+/-- over `ℝ` the direct-vine hypothesis `AllAbove` holds for a concrete Kendall-like matrix. -/
+example : AllAbove 2 ([[1, 1/2], [1/2, 1]] : Mat ℝ) := by
+  intro i hi c hc
+  obtain rfl | rfl : i = 0 ∨ i = 1 := by omega
+  all_goals (obtain rfl | rfl : c = 0 ∨ c = 1 := by omega)
+  all_goals (simp [Mat.get, m10]; norm_num)
+
+end Examples
+
 end CopVerif.Props.C16
